@@ -297,7 +297,7 @@ def rule_float(chk):
     lf = chk.anchor("C10.anchor/literal_float", f.fn("literal_float", PP), "literal_float")
     if lf:
         tab = {}
-        for m in F.exprs(lf["thir"], "Match"):
+        for m in F.exprs_deep(f, lf, "Match", depth=1):
             for arm in m["arms"]:
                 alt = F.pat_alternatives(arm["pat"])[0]
                 pv = F.pat_variant(alt)
